@@ -80,7 +80,11 @@ def correspondence(ctx, model_ok):
 
 
 def oracle_cases(ctx, corr):
-    return [c['circuit'] for c in getattr(corr, '_cases', [])]
+    # deep / large circuits (work lists of hundreds of entries): oracle only, the event logs are too long for the
+    # in-Coq comparison
+    big = [travcorr.deep_shared_circuit(ctx.rng, h) for h in (12, 40, 90)] + \
+          [gen.random_circuit(ctx.rng, n_inputs=4, n_gates=n, with_blocks=False) for n in (40, 80, 160)]
+    return big + [c['circuit'] for c in getattr(corr, '_cases', [])]
 
 
 def oracle(dump):
